@@ -1,8 +1,8 @@
 // c18: correspondence + direct oracle (math/big) for the unit conversions of
 // base/unixutil (TimevalFromNsec) and net/csptp (timestamps, time intervals, offset and
 // delay formulas). The floating-point functions (base/unixutil/freq.go, SystemClock.Drift)
-// are not part of the correspondence ops (their model needs Model/F64); ScaledPPMFromFreq /
-// FreqFromScaledPPM get a Go-side-only oracle below.
+// are executed against Model/FreqDrift.lean (over the shared software double Model/F64.lean),
+// doubles crossing the protocol as bit patterns; their theorems are pending (notes/C18.md).
 package main
 
 import (
@@ -13,7 +13,9 @@ import (
 	"strconv"
 	"time"
 
+	"example.com/scion-time/base/timemath"
 	"example.com/scion-time/base/unixutil"
+	"example.com/scion-time/driver/clocks"
 	"example.com/scion-time/net/csptp"
 
 	"verifharness/lib"
@@ -42,6 +44,25 @@ func tm(s, n string) time.Time {
 	return time.Unix(i64(s), ns)
 }
 
+func f64(s string) float64 {
+	if len(s) != 16 {
+		panic("bad-op")
+	}
+	b, err := strconv.ParseUint(s, 16, 64)
+	if err != nil {
+		panic("bad-op")
+	}
+	return math.Float64frombits(b)
+}
+
+// canonNaN: every NaN is printed as 0x7ff8000000000001 (the model's canonical NaN).
+func canonNaN(f float64) float64 {
+	if f != f {
+		return math.Float64frombits(0x7ff8000000000001)
+	}
+	return f
+}
+
 func exec(t []string) string {
 	switch {
 	case t[0] == "ux.timeval" && len(t) == 2:
@@ -61,6 +82,15 @@ func exec(t []string) string {
 		ts.Nanoseconds = uint32(n)
 		r := csptp.TimeFromTimestamp(ts)
 		return fmt.Sprintf("ok %d %d", r.Unix(), r.Nanosecond())
+	case t[0] == "ux.ppm2freq" && len(t) == 2:
+		return fmt.Sprintf("ok %016x", math.Float64bits(canonNaN(unixutil.FreqFromScaledPPM(i64(t[1])))))
+	case t[0] == "ux.freq2ppm" && len(t) == 2:
+		return fmt.Sprintf("ok %d", unixutil.ScaledPPMFromFreq(f64(t[1])))
+	case t[0] == "tm.duration" && len(t) == 2:
+		return fmt.Sprintf("ok %d", int64(timemath.Duration(f64(t[1]))))
+	case t[0] == "clk.drift" && len(t) == 3:
+		clk := clocks.NewSystemClock(nil, time.Duration(i64(t[1])))
+		return fmt.Sprintf("ok %d", int64(clk.Drift(time.Duration(i64(t[2])))))
 	case t[0] == "cs.ival" && len(t) == 2:
 		return fmt.Sprintf("ok %d", int64(csptp.DurationFromTimeInterval(i64(t[1]))))
 	case (t[0] == "cs.offset" || t[0] == "cs.delay") && len(t) == 11:
@@ -250,13 +280,30 @@ func formulas(c *lib.Ctx, t0, t2 *big.Int, d1, d3, theta, c1, c3, utc int64) {
 	}
 }
 
-// scaled-ppm round trip (floating point; Go-side oracle only, no model correspondence yet)
+// scaled-ppm round trip: x -> FreqFromScaledPPM -> ScaledPPMFromFreq, judged with math/big.
 func ppm(c *lib.Ctx, x int64) {
-	f := unixutil.FreqFromScaledPPM(x)
-	y := unixutil.ScaledPPMFromFreq(f)
-	c.Count("ppm:roundtrip-checked(go-side only)")
-	// exact value x / 65536e6 as a rational; the double must be within half an ulp, i.e.
-	// relative error <= 2^-53
+	op1 := fmt.Sprintf("ux.ppm2freq %d", x)
+	a1 := c.Do(op1)
+	var bits uint64
+	if _, err := fmt.Sscanf(a1, "ok %x", &bits); err != nil {
+		c.Fail("C18:ppm:not-ok", "FreqFromScaledPPM did not return", []string{op1}, nil)
+		return
+	}
+	f := math.Float64frombits(bits)
+	op2 := fmt.Sprintf("ux.freq2ppm %016x", bits)
+	ys, ok := lib.Ints(c.Do(op2))
+	if !ok || len(ys) != 1 {
+		c.Fail("C18:ppm:not-ok", "ScaledPPMFromFreq did not return", []string{op1, op2}, nil)
+		return
+	}
+	y := ys[0]
+	inRange := x >= -32768000 && x <= 32768000
+	if !inRange {
+		c.Count("ppm:beyond-kernel-range(correspondence only)")
+		return
+	}
+	c.Count("ppm:roundtrip-checked")
+	// the double must be within relative 2^-53 of the exact quotient x / 65536e6
 	exact := new(big.Rat).SetFrac(bi(x), bi(65536000000))
 	fr := new(big.Rat)
 	fr.SetFloat64(f)
@@ -265,15 +312,87 @@ func ppm(c *lib.Ctx, x int64) {
 	bound := new(big.Rat).Abs(exact)
 	bound.Mul(bound, new(big.Rat).SetFrac(bi(1), new(big.Int).Lsh(bi(1), 53)))
 	if diff.Cmp(bound) > 0 {
-		c.Fail("C18:ppm:freq-rounding", "FreqFromScaledPPM is not the correctly rounded quotient", []string{},
-			map[string]any{"scaled_ppm": x, "freq_bits": fmt.Sprintf("%016x", math.Float64bits(f))})
+		c.Fail("C18:ppm:freq-rounding", "FreqFromScaledPPM is not the correctly rounded quotient", []string{op1},
+			map[string]any{"scaled_ppm": x})
 	}
 	if y-x > 1 || x-y > 1 {
-		c.Fail("C18:ppm:roundtrip", "ScaledPPMFromFreq(FreqFromScaledPPM(x)) differs from x by more than 1", []string{},
+		c.Fail("C18:ppm:roundtrip", "ScaledPPMFromFreq(FreqFromScaledPPM(x)) differs from x by more than 1", []string{op1, op2},
 			map[string]any{"scaled_ppm": x, "back": y})
 	}
 	if y != x {
 		c.Count("ppm:roundtrip-off-by-one")
+	}
+}
+
+// freqBack: freq -> ScaledPPMFromFreq -> FreqFromScaledPPM is within one scaled-ppm unit
+// (2^-16 ppm = 1/65536e6) below-or-equal in magnitude (truncation) of the original.
+func freqBack(c *lib.Ctx, f float64) {
+	bits := math.Float64bits(canonNaN(f))
+	op1 := fmt.Sprintf("ux.freq2ppm %016x", bits)
+	ys, ok := lib.Ints(c.Do(op1))
+	if !ok || len(ys) != 1 {
+		c.Fail("C18:ppm:not-ok", "ScaledPPMFromFreq did not return", []string{op1}, nil)
+		return
+	}
+	if f != f || math.IsInf(f, 0) || math.Abs(f) > 500e-6 {
+		c.Count("freq:beyond-kernel-range(correspondence only)")
+		return
+	}
+	op2 := fmt.Sprintf("ux.ppm2freq %d", ys[0])
+	a2 := c.Do(op2)
+	var b2 uint64
+	if _, err := fmt.Sscanf(a2, "ok %x", &b2); err != nil {
+		c.Fail("C18:ppm:not-ok", "FreqFromScaledPPM did not return", []string{op1, op2}, nil)
+		return
+	}
+	c.Count("freq:roundtrip-checked")
+	g := math.Float64frombits(b2)
+	fr, gr := new(big.Rat), new(big.Rat)
+	fr.SetFloat64(f)
+	gr.SetFloat64(g)
+	d := new(big.Rat).Sub(fr, gr)
+	d.Abs(d)
+	unit := new(big.Rat).SetFrac(bi(1), bi(65536000000))
+	// one unit for the truncation plus rounding slack of 2^-50 relative
+	slack := new(big.Rat).Abs(fr)
+	slack.Mul(slack, new(big.Rat).SetFrac(bi(1), new(big.Int).Lsh(bi(1), 50)))
+	unit.Add(unit, slack)
+	if d.Cmp(unit) > 0 {
+		c.Fail("C18:ppm:freq-roundtrip", "FreqFromScaledPPM(ScaledPPMFromFreq(f)) differs from f by more than one scaled-ppm unit",
+			[]string{op1, op2}, nil)
+	}
+}
+
+// drift: SystemClock.Drift(duration) against the exact product duration * drift / 1s.
+func drift(c *lib.Ctx, dr, d int64) {
+	op := fmt.Sprintf("clk.drift %d %d", dr, d)
+	a, ok := lib.Ints(c.Do(op))
+	if !ok || len(a) != 1 {
+		c.Fail("C18:drift:not-ok", "Drift did not return", []string{op}, nil)
+		return
+	}
+	if dr == 0 {
+		c.Count("drift:unknown")
+		if a[0] != maxI {
+			c.Fail("C18:drift:unknown", "Drift with UnknownDrift is not MaxInt64", []string{op}, nil)
+		}
+		return
+	}
+	exact := new(big.Rat).SetFrac(new(big.Int).Mul(bi(dr), bi(d)), bE9)
+	lim := new(big.Rat).SetInt(new(big.Int).Lsh(bi(1), 62))
+	if new(big.Rat).Abs(exact).Cmp(lim) >= 0 {
+		c.Count("drift:beyond-int64(correspondence only)")
+		return
+	}
+	c.Count("drift:proportionality-checked")
+	diff := new(big.Rat).Sub(new(big.Rat).SetInt(bi(a[0])), exact)
+	diff.Abs(diff)
+	tol := new(big.Rat).Abs(exact)
+	tol.Mul(tol, new(big.Rat).SetFrac(bi(1), new(big.Int).Lsh(bi(1), 51)))
+	tol.Add(tol, new(big.Rat).SetInt64(1))
+	if diff.Cmp(tol) > 0 {
+		c.Fail("C18:drift:proportional", "Drift differs from duration*drift by more than 1 ns + 2^-51 relative", []string{op},
+			map[string]any{"exact": exact.FloatString(3), "got": a[0]})
 	}
 }
 
@@ -448,12 +567,69 @@ func gen(c *lib.Ctx) {
 		}
 	}
 
-	// ---- scaled ppm (Go-side oracle only)
-	for _, x := range []int64{0, 1, -1, 2, -2, 65535, 65536, 65537, -65536, 32768000, -32768000, 32767999, -32767999, 32768001} {
+	// ---- scaled ppm <-> frequency
+	c.Comment("scaled ppm / frequency")
+	for _, x := range []int64{0, 1, -1, 2, -2, 65535, 65536, 65537, -65536, 32768000, -32768000, 32767999, -32767999, 32768001, -32768001,
+		minI, maxI, 1 << 53, 1<<53 + 1, -(1 << 53) - 1, 65536000000, 9007199254740993} {
 		ppm(c, x)
 	}
-	for i := 0; i < c.Scale(5000, 200000); i++ {
-		ppm(c, r.Range(-32768000, 32768000))
+	for i := 0; i < c.Scale(4000, 150000); i++ {
+		switch r.Intn(8) {
+		case 0:
+			ppm(c, r.I64())
+		default:
+			ppm(c, r.Range(-32768000, 32768000))
+		}
+	}
+	for _, f := range []float64{0, math.Copysign(0, -1), 500e-6, -500e-6, 499.99999e-6, 1e-6, -1e-6, 1.0 / 65536e6, 0.9999 / 65536e6, -0.9999 / 65536e6,
+		1.5 / 65536e6, math.SmallestNonzeroFloat64, math.MaxFloat64, -math.MaxFloat64, math.Inf(1), math.Inf(-1), math.NaN(), 1e9, 140737488.355327, 140737488.355328, -140737488.355329} {
+		freqBack(c, f)
+	}
+	for i := 0; i < c.Scale(4000, 150000); i++ {
+		switch r.Intn(8) {
+		case 0:
+			freqBack(c, math.Float64frombits(r.U64()))
+		case 1:
+			freqBack(c, float64(r.Range(-32768000, 32768000))/65536e6)
+		default:
+			freqBack(c, (float64(r.Range(-1000000000, 1000000000))/1e9)*500e-6)
+		}
+	}
+
+	// ---- drift allowance
+	c.Comment("drift")
+	for _, dr := range []int64{0, 1, -1, 10000, 1000000, e9, -e9, 123456789, maxI, minI} {
+		for _, d := range []int64{0, 1, -1, 999999999, e9, e9 + 1, 64 * e9, 3600 * e9, maxI, minI} {
+			drift(c, dr, d)
+		}
+	}
+	for i := 0; i < c.Scale(4000, 150000); i++ {
+		var dr, d int64
+		switch r.Intn(4) {
+		case 0:
+			dr = r.Range(1, 1000000) // up to 1 ms per second
+		case 1:
+			dr = r.Range(-1000000, 1000000)
+		case 2:
+			dr = r.Pick64([]int64{0, 10000, 50000, 100000})
+		default:
+			dr = r.I64()
+		}
+		switch r.Intn(4) {
+		case 0:
+			d = r.Range(0, 3600) * e9
+		case 1:
+			d = r.Range(0, 3600*e9)
+		case 2:
+			d = r.Range(-e9, 100*e9)
+		default:
+			d = r.I64()
+		}
+		drift(c, dr, d)
+		if i%4 == 0 {
+			c.Dof("tm.duration %016x", math.Float64bits(canonNaN(math.Float64frombits(r.U64()))))
+			c.Dof("tm.duration %016x", math.Float64bits(float64(r.Range(-10000000, 10000000))/1000))
+		}
 	}
 }
 
